@@ -251,6 +251,13 @@ fn machine(host: &mut Host, name: &str, op: &Value) -> Result<Option<Value>, Str
                 if cfg.get("pce500_map").and_then(|x| x.as_bool()) == Some(true) {
                     sc62015_core::pce500::configure_pce500_memory_map(&mut rt.memory);
                 }
+                if let Some(dev) = cfg.get("device").and_then(|x| x.as_str()) {
+                    // the machine as a front end puts it together: DeviceModel::configure_runtime (LCD kind, keyboard
+                    // polarity, ROM window from an image file, read-only map, SIO ROM stub)
+                    let model = if dev == "jp" { sc62015_core::DeviceModel::PcE500Jp } else { sc62015_core::DeviceModel::PcE500 };
+                    let rom = vec![0u8; 0x40000];
+                    model.configure_runtime(&mut rt, &rom).map_err(|e| format!("{e}"))?;
+                }
                 add_expansions(&mut rt, cfg)?;
             }
             host.machines.insert(slot, rt);
@@ -399,7 +406,7 @@ fn machine(host: &mut Host, name: &str, op: &Value) -> Result<Option<Value>, Str
             for p in pages {
                 if let Some(v) = p.as_u64() {
                     rt.state.push_call_page(v as u32);
-                    rt.state.push_call_frame(v as u32, 16);
+                    rt.state.push_call_frame(v as u32, op.get(6).and_then(|x| x.as_u64()).unwrap_or(16) as u8);
                 }
             }
             if let Some(p) = perf {
